@@ -8,8 +8,8 @@ import Iauthd.Util.Bytes
                                            the facility is registered *before* the severity text is looked at);
     * `registerType`                     = log_type_register(name, NULL)  (every caller in the tree passes
                                            a NULL default target, so default targets are not modelled);
-    * `openSt` / `openCheck`             = log_destination_open (case-insensitive look-up in the
-                                           destination set, `refcnt++` on a hit, vtable look-up, fopen);
+    * `openSt` / `openCheck`             = log_destination_open (look-up in the destination set by
+                                           exact name, `refcnt++` on a hit, vtable look-up, fopen);
     * `stepOp`, `entryOps`               = the body of the child loop of log_rescan_conf with
                                            log_attach_destinations (string: one value; list: each element);
     * `prep`, `closeSt`, `rescan`        = log_rescan_conf: refcnt = -1, `used = 0`, walk, "close still
@@ -26,9 +26,11 @@ import Iauthd.Util.Bytes
   Representation.  The six `log_destination_vector`s of every `log_type` are kept as one
   attachment log `atts` (type name as registered, severity, destination name as stored in the
   destination set) in append order; `vec st ty sev` is the vector.  `used = 0` on all vectors is
-  `atts := []`.  Sets (`struct set` with set_compare_charp = strcasecmp) are association lists
-  looked up with `ciEq` (C19's refinement theorem is what licenses this); the destination set is
-  kept in comparator order because log_rescan_conf iterates over it when closing.
+  `atts := []`.  Sets are association lists looked up with the comparator's equality (C19's
+  refinement theorem is what licenses this): `ciEq` for log_types and log_vtables
+  (set_compare_charp = strcasecmp), exact equality for log_destinations (log_destination_cmp =
+  strcmp); the destination set is kept in comparator order because log_rescan_conf iterates over
+  it when closing.
 -/
 namespace Iauthd.Log
 open Iauthd
@@ -181,7 +183,7 @@ structure Att where
 
 structure LogSt where
   types : List Bytes    -- log_types: registered names (first spelling seen), registration order
-  dests : List Dest     -- log_destinations, comparator (strcasecmp) order
+  dests : List Dest     -- log_destinations, comparator (strcmp of names) order
   atts : List Att       -- all destination vectors, append order
   verbosity : Int := 1  -- log_verbosity
   vts : Bool := true    -- conf.verbose_timestamp->parsed.p_boolean
@@ -211,19 +213,26 @@ def dests (st : LogSt) (fac : Bytes) (sev : Nat) : List Bytes :=
 
 def openNames (st : LogSt) : List Bytes := st.dests.map (·.name)
 
-/-! ### log_destination_open (state part) -/
+/-! ### log_destination_open (state part)
 
-def findDest (ds : List Dest) (name : Bytes) : Option Dest := ds.find? (fun d => ciEq d.name name)
+  `log_destinations.compare = log_destination_cmp`, i.e. strcmp on the name: `file:` paths are
+  case-sensitive, so `file:a.log` and `file:A.log` are two destinations.  (On the pinned snapshot
+  647fb5c the comparator was set_compare_charp = strcasecmp; that variant is kept below as
+  `findDestPinned` … `rescanPinned` together with the kernel-checked witnesses of what went
+  wrong, `alias_same_section_witness` / `alias_history_witness` in Proofs.lean.)
+-/
+
+def findDest (ds : List Dest) (name : Bytes) : Option Dest := ds.find? (fun d => decide (d.name = name))
 
 /-- `ld->refcnt++` on the element set_find returned -/
 def bump (name : Bytes) : List Dest → List Dest
   | [] => []
-  | x :: xs => if ciEq x.name name then { x with refcnt := x.refcnt + 1 } :: xs else x :: bump name xs
+  | x :: xs => if x.name = name then { x with refcnt := x.refcnt + 1 } :: xs else x :: bump name xs
 
 /-- set_insert of a new destination (comparator order) -/
 def insertDest (d : Dest) : List Dest → List Dest
   | [] => [d]
-  | x :: xs => if Bytes.strcasecmp d.name x.name < 0 then d :: x :: xs else x :: insertDest d xs
+  | x :: xs => if Bytes.strcmp d.name x.name < 0 then d :: x :: xs else x :: insertDest d xs
 
 /-- returns the new destination set and the name of the destination object returned -/
 def openSt (ds : List Dest) (name : Bytes) : List Dest × Bytes :=
@@ -276,6 +285,34 @@ def closeSt (st : LogSt) : LogSt :=
 /-- log_rescan_conf when every destination can be opened (otherwise see `rescanR`) -/
 def rescan (st : LogSt) (sec : List Entry) : LogSt :=
   closeSt ((sectionOps sec).foldl stepOp (prep st))
+
+/-! ### the destination set as keyed on the pinned snapshot (strcasecmp) -/
+
+def findDestPinned (ds : List Dest) (name : Bytes) : Option Dest := ds.find? (fun d => ciEq d.name name)
+
+def bumpPinned (name : Bytes) : List Dest → List Dest
+  | [] => []
+  | x :: xs => if ciEq x.name name then { x with refcnt := x.refcnt + 1 } :: xs else x :: bumpPinned name xs
+
+def insertDestPinned (d : Dest) : List Dest → List Dest
+  | [] => [d]
+  | x :: xs => if Bytes.strcasecmp d.name x.name < 0 then d :: x :: xs else x :: insertDestPinned d xs
+
+def openStPinned (ds : List Dest) (name : Bytes) : List Dest × Bytes :=
+  match findDestPinned ds name with
+  | some d => (bumpPinned name ds, d.name)
+  | none => (insertDestPinned ⟨name, 0⟩ ds, name)
+
+def stepOpPinned (st : LogSt) : Op → LogSt
+  | .reg f => registerType st f
+  | .att f sev v =>
+    { registerType st f with
+        dests := (openStPinned st.dests v).1,
+        atts := st.atts ++ [⟨canonT (registerType st f).types f, sev, (openStPinned st.dests v).2⟩] }
+
+/-- log_rescan_conf of snapshot 647fb5c -/
+def rescanPinned (st : LogSt) (sec : List Entry) : LogSt :=
+  closeSt ((sectionOps sec).foldl stepOpPinned (prep st))
 
 /-! ### log_vmessage -/
 
@@ -398,10 +435,11 @@ structure Child where
 
 def Child.entry (c : Child) : Entry := ⟨c.name, c.values⟩
 
-/-- conf_object_cmp -/
+/-- conf_object_cmp: strcasecmp of the names, then the node types.  Only the sign is used.
+    (Names are C strings; for NUL-free lists `ciEq` is `strcasecmp == 0`, `ciEq_eq_strcasecmp`.) -/
 def childCmp (a b : Child) : Int :=
-  if Bytes.strcasecmp a.name b.name = 0 then kindNum a.kind - kindNum b.kind
-  else Bytes.strcasecmp a.name b.name
+  if ciEq a.name b.name then kindNum a.kind - kindNum b.kind
+  else if Bytes.strcasecmp a.name b.name < 0 then -1 else 1
 
 /-- an entry of the file inside `logs { … }` -/
 structure RawEntry where
@@ -410,17 +448,26 @@ structure RawEntry where
   values : List Bytes
   deriving Repr, DecidableEq
 
-/-- conf_parse_get_child on the scratch tree + the assignment of the value: an entry whose
-    (name, type) is already there overwrites its value and keeps the first spelling. -/
+/-- `conf_object_cmp(a, b) == 0`: same name up to case and same node type -/
+def sameClass (a b : Child) : Bool := ciEq a.name b.name && decide (a.kind = b.kind)
+
+/-- the node set_find returned gets the new value (string: xfree + assign; list:
+    conf_set_string_list_value); it keeps its own spelling of the name -/
+def setValues (n : Child) : List Child → List Child
+  | [] => []
+  | c :: rest => if sameClass n c then { c with values := n.values } :: rest else c :: setValues n rest
+
+/-- set_insert: comparator order -/
+def insertChild (n : Child) : List Child → List Child
+  | [] => [n]
+  | c :: rest => if childCmp n c < 0 then n :: c :: rest else c :: insertChild n rest
+
+/-- conf_parse_get_child on the scratch tree (`existing = set_find(…)`, else `set_insert`) + the
+    assignment of the value: an entry whose (name, type) is already there overwrites its value
+    and keeps the first spelling. -/
 def scratchInsert (cs : List Child) (e : RawEntry) : List Child :=
   let n : Child := { name := e.key, kind := e.kind, values := e.values }
-  let rec go : List Child → List Child
-    | [] => [n]
-    | c :: rest =>
-      if childCmp n c = 0 then { c with values := e.values } :: rest
-      else if childCmp n c < 0 then n :: c :: rest
-      else c :: go rest
-  go cs
+  if cs.any (sameClass n) then setValues n cs else insertChild n cs
 
 def scratchOf (es : List RawEntry) : List Child := es.foldl scratchInsert []
 
@@ -561,5 +608,10 @@ def load (co : Bytes → Bool) (c : ConfSt) (file : Option (List RawEntry)) : Co
 def message (c : ConfSt) (fac : Bytes) (sev : Nat) (m : Bytes) : ConfSt :=
   if c.run.exit.isSome then c else
   { c with run := ({ c.run with st := registerType c.run.st fac }).log fac sev m }
+
+/-- log_set_verbosity -/
+def setVerbosity (c : ConfSt) (n : Int) : ConfSt :=
+  if c.run.exit.isSome then c else
+  { c with run := { c.run with st := { c.run.st with verbosity := n } } }
 
 end Iauthd.Log
